@@ -12,7 +12,9 @@ package main
 //   - calls: every call of a Router method on the same router with the lock held at the call;
 //   - lockingFns: the functions that acquire the mutex;
 //   - defaultPatternText: the literal assigned to `defaultPattern` in newRouteRegexp;
-//   - emptyPathReplacement: what FilterPath returns for "" (recognised shape: `if x == "" { return LIT }; return x`).
+//   - emptyPathReplacement: what FilterPath returns for "" (recognised shape: `if x == "" { return LIT }; return x`);
+//   - toHandlerRouteParamsExpr / toHandlerFreshRouteParams: what ToHandler puts into the `RouteParams` field of the
+//     per-request mux.Message, and whether that is an object built for this request alone.
 //
 // Lock tracking is deliberately simple and fails closed: Lock/RLock/Unlock/RUnlock must be top-level statements of the
 // function body (or `defer … Unlock()` directly after the Lock), never nested in if/for/switch/closures; a `return`
@@ -23,6 +25,7 @@ package main
 import (
 	"fmt"
 	"go/ast"
+	"go/printer"
 	"go/token"
 	"os"
 	"path/filepath"
@@ -182,6 +185,7 @@ func genRouterLockShape(g *gen, repo string) {
 
 	defPat := rlDefaultPattern(repo)
 	empty := rlFilterPath(repo)
+	rpFresh, rpExpr := rlToHandlerRouteParams(repo)
 
 	var b strings.Builder
 	b.WriteString("namespace CoapVerif.Generated.RouterLockShape\n\n")
@@ -221,6 +225,10 @@ func genRouterLockShape(g *gen, repo string) {
 	b.WriteString("def defaultPatternText : String := " + rlLeanStr(defPat) + "\n\n")
 	b.WriteString("/-- mux/router.go FilterPath: the value returned for the empty string -/\n")
 	b.WriteString("def emptyPathReplacement : String := " + rlLeanStr(empty) + "\n\n")
+	b.WriteString("/-- mux/muxResponseWriter.go ToHandler: the expression given as `RouteParams:` of the per-request mux.Message (AST) -/\n")
+	b.WriteString("def toHandlerRouteParamsExpr : String := " + rlLeanStr(rpExpr) + "\n\n")
+	b.WriteString("/-- … is it an object built for this request alone (`new(RouteParams)` or `&RouteParams{}`)? -/\n")
+	fmt.Fprintf(&b, "def toHandlerFreshRouteParams : Bool := %v\n\n", rpFresh)
 	b.WriteString("end CoapVerif.Generated.RouterLockShape\n")
 	g.write("RouterLockShape.lean", b.String())
 }
@@ -414,6 +422,63 @@ func rlDefaultPattern(repo string) string {
 		fail("RouterLockShape: expected exactly one assignment to defaultPattern, found %d", len(out))
 	}
 	return out[0]
+}
+
+// rlToHandlerRouteParams recognises in ToHandler the single call `<m>.ServeCOAP(<w>, &Message{…, RouteParams: X})` and
+// reports whether X is an object built for this request alone. Any other shape of the call fails closed.
+func rlToHandlerRouteParams(repo string) (bool, string) {
+	fset, f := parseFile(repo, "mux/muxResponseWriter.go")
+	fd := funcDecl(f, "", "ToHandler")
+	var calls []*ast.CallExpr
+	ast.Inspect(fd.Body, func(n ast.Node) bool {
+		if c, ok := n.(*ast.CallExpr); ok {
+			if sel, ok := c.Fun.(*ast.SelectorExpr); ok && sel.Sel.Name == "ServeCOAP" {
+				calls = append(calls, c)
+			}
+		}
+		return true
+	})
+	if len(calls) != 1 || len(calls[0].Args) != 2 {
+		fail("RouterLockShape: ToHandler: expected exactly one call of ServeCOAP with two arguments, found %d", len(calls))
+	}
+	u, ok := calls[0].Args[1].(*ast.UnaryExpr)
+	if !ok || u.Op != token.AND {
+		fail("RouterLockShape: ToHandler: the request is not `&Message{…}`")
+	}
+	cl, ok := u.X.(*ast.CompositeLit)
+	if !ok || identName(cl.Type) != "Message" {
+		fail("RouterLockShape: ToHandler: the request is not `&Message{…}`")
+	}
+	var val ast.Expr
+	for _, el := range cl.Elts {
+		kv, ok := el.(*ast.KeyValueExpr)
+		if !ok {
+			fail("RouterLockShape: ToHandler: Message literal without field names")
+		}
+		if identName(kv.Key) == "RouteParams" {
+			if val != nil {
+				fail("RouterLockShape: ToHandler: RouteParams given twice")
+			}
+			val = kv.Value
+		}
+	}
+	if val == nil {
+		fail("RouterLockShape: ToHandler: Message literal has no RouteParams field")
+	}
+	var sb strings.Builder
+	if err := printer.Fprint(&sb, fset, val); err != nil {
+		fail("RouterLockShape: ToHandler: cannot print the RouteParams expression: %v", err)
+	}
+	fresh := false
+	switch t := val.(type) {
+	case *ast.CallExpr:
+		fresh = identName(t.Fun) == "new" && len(t.Args) == 1 && identName(t.Args[0]) == "RouteParams"
+	case *ast.UnaryExpr:
+		if c, ok := t.X.(*ast.CompositeLit); ok && t.Op == token.AND {
+			fresh = identName(c.Type) == "RouteParams" && len(c.Elts) == 0
+		}
+	}
+	return fresh, sb.String()
 }
 
 func rlFilterPath(repo string) string {
